@@ -121,6 +121,12 @@ def o_gac(op, mesh, target, line, out, hessian_input=False):
     c, mag = complexity_ref(mesh, field)
     if not (mag < 1.5 * abs(c)):
         return
+    # ref_matrix_det_m (Gaussian elimination in doubles) is accurate to about cond * 1e-16: the 1e-10 statement is
+    # made for tensors of conditioning up to 1e4
+    for m in field:
+        ev = mt.sm_eigs(m)
+        if not (ev[0] > 0 and ev[2] / ev[0] <= 1e4):
+            return
     if abs(c - target) > 1e-10 * target:
         out.append('%s: complexity of the output field is %.15e, requested %.15e' % (op, c, target))
 
